@@ -78,6 +78,21 @@ CodeOK(c, ev) ==
     /\ ev.code.name = c.code.name
     /\ ev.code.name # "" => (ev.code.src = c.code.src /\ ev.code.dst = c.code.dst)
 
+(* POP3 QUIT (pop3_client.do_quit): the messages marked with DELE are removed from the
+   inbox by UID, whatever their flags; the IMAP sessions watching the inbox are told
+   like after any other session's EXPUNGE *)
+PopQuit(uids) ==
+    LET m == "inbox"
+        gone == {i \in DOMAIN msgs[m] : msgs[m][i].uid \in SeqToSet(uids)}
+        r == ExpungeRes(Acc0, m, msgs[m], gone, "")
+        keysGone == {msgs[m][i].key : i \in gone}
+    IN /\ Clean(m)
+       /\ msgs' = TLCEval([msgs EXCEPT ![m] = r.ms])
+       /\ files' = [files EXCEPT ![m] = {f \in @ : f[1] \notin keysGone}]
+       /\ fseq' = [fseq EXCEPT ![m] = {e \in @ : e[1] \notin keysGone}]
+       /\ Finish(Acc0, r.acc, Ev("PopQuit", ""))
+       /\ UNCHANGED <<next, dirty, force, nextId, agent>>
+
 Atomic(i) ==
     LET c == W.cmds[i] IN
     /\ phase[i] = "new"
@@ -89,6 +104,7 @@ Atomic(i) ==
               /\ (c.status = "OK") => ReportedOK(c, last', "FETCH")
          [] c.act = "Expunge" -> Expunge(c.sess, c.uid, c.set)
          [] c.act = "Noop" -> Noop(c.sess)
+         [] c.act = "PopQuit" -> PopQuit(c.uids)
          [] c.act = "Append" ->
               /\ DoAppendId(c.sess, c.mbox, SeqToSet(c.flags), c.msgid)
               /\ CodeOK(c, last')
